@@ -68,7 +68,7 @@ TNext ==
                   THEN l' = l + 1 /\ skip' = 1 /\ stk' = Pushed(Ev)
                   ELSE l' = NextReset(l) /\ skip' = 0 /\ stk' = <<>>
     \/ /\ l <= Len(Tr) /\ skip = 0 /\ Ev.e = "Undo"
-       /\ live' = stk[Len(stk)][1] /\ mem' = stk[Len(stk)][2]
+       /\ live' = stk[Len(stk)][1] /\ mem' = stk[Len(stk)][2] /\ UNCHANGED cfg
        /\ stk' = SubSeq(stk, 1, Len(stk) - 1)
        /\ l' = l + 1 /\ skip' = 0
     \/ /\ l <= Len(Tr) /\ skip > 0
@@ -76,7 +76,7 @@ TNext ==
           ELSE IF Ev.e = "Undo"
           THEN /\ skip' = skip - 1 /\ l' = l + 1
                /\ IF skip = 1
-                  THEN /\ live' = stk[Len(stk)][1] /\ mem' = stk[Len(stk)][2]
+                  THEN /\ live' = stk[Len(stk)][1] /\ mem' = stk[Len(stk)][2] /\ UNCHANGED cfg
                        /\ stk' = SubSeq(stk, 1, Len(stk) - 1)
                   ELSE UNCHANGED <<vars, stk>>
           ELSE /\ skip' = (IF Begins(Ev) THEN skip + 1 ELSE skip) /\ l' = l + 1
